@@ -238,3 +238,23 @@ pub fn k_c17_rp64_length_separation() {
     vcheck!("C17.rp64.hash_elements.trailing_zero_element_separated", !same(&t1, &t2));
     vreach!("C17.rp64.reach");
 }
+
+// `mds_multiply` can return a word in [p, 2^64) (right residue class, not the canonical representative; witness in
+// unit c16_mds). In the permutation every MDS step is followed by `add_constants`: for EVERY 64-bit word and every
+// round constant the field addition returns the canonical representative of the sum, so the non-canonical words
+// never leave `apply_round`.
+//# harness: fn=Rp64_256::add_constants after apply_mds (f64 add with an arbitrary 64-bit left operand, every round constant); label=complete (every u64 word, every entry of ARK1 and ARK2); tier=quick; props=C16; timeout=600
+#[cfg_attr(kani, kani::proof)]
+#[cfg_attr(kani, kani::unwind(14))]
+pub fn k_c16_rp64_add_constants_canonicalises() {
+    let a = vs::any_u64();
+    let (i, j) = (vs::any_usize(), vs::any_usize());
+    vs::assume(i < NUM_ROUNDS && j < STATE_WIDTH);
+    let m = 0xffffffff00000001u128;
+    let r1 = BaseElement::from_mont(a) + ARK1[i][j];
+    let r2 = BaseElement::from_mont(a) + ARK2[i][j];
+    vcheck!("C16.rp64.add_constants.canonicalises_any_mds_output",
+        (r1.inner() as u128) < m && (r1.inner() as u128) == (a as u128 + ARK1[i][j].inner() as u128) % m
+            && (r2.inner() as u128) < m && (r2.inner() as u128) == (a as u128 + ARK2[i][j].inner() as u128) % m);
+    vreach!("C16.rp64.add_constants.reach");
+}
